@@ -32,7 +32,11 @@ pub fn run(tier: Tier) -> i32 {
     let mut evaluations = 0u64;
     let mut outcomes = 0usize;
     // tree half
-    let patterns: Vec<String> = c08::MAIN_PATTERNS[..tier.pick(8, 12)].iter().map(|s| s.to_string()).collect();
+    let mut patterns: Vec<String> = c08::MAIN_PATTERNS[..tier.pick(7, 12)].iter().map(|s| s.to_string()).collect();
+    // a pattern that does not compile (never matches, cached or not; must stay in the tree) and one that
+    // starts with an upper-case literal
+    patterns.push(r"/a/b/(".to_string());
+    patterns.push(r"Abc/(?:[a-z]+)".to_string());
     for (unique, ignore_case) in [(false, false), (false, true), (true, false)] {
         let cfg = c08::Config { set: if unique { "main-unique".into() } else { "main".into() }, patterns: patterns.clone(), unique, ignore_case, second_ids: false, cache_ops: true };
         let model = c08::Model::new(&ctx, cfg.clone(), "C12", true);
